@@ -27,6 +27,19 @@ CHECKS['C07'] = dict(technique='runtime monitoring: AstVm differential oracle (r
              note='Trusts AstVm; where the block form contains a jump into a nested block the comparison runs on its desugaring (relies on C06). Streams with explicit-time jumps are decided by the '
                   'recompile-equality oracle only (AstVm block-time rule is inexact when time runs ahead of labels). Difficulty-tagged jumps are not generated (TestLanguage has no difficulty).',
              design='3/C07')
+CHECKS['C04'] = dict(technique='runtime monitoring: crash/abort/CPU/allocation monitors + Result-vs-diagnostics oracle over generated, mutated and hostile text inputs',
+             text='Exploration. Every input is compiled in an isolated worker process through the exact CLI pipeline; the monitors observe worker death (abort, stack overflow, allocation failure), '
+                  'panics (hook with site signature, including diagnostic-rendering panics), CPU seconds and peak allocation, and the oracle requires failure <=> an error-severity diagnostic was printed. '
+                  'Inputs: grammar-generated files for all tools/games, token/byte mutants, a hostile list (extreme literals, reserved syntax, nesting to 256), mapfile texts. Thorough runs dev and release profiles.',
+             note='In-process wrappers of the private CLI run functions (cfg(truth_verif)); a sample is re-executed through the real process. Unbounded liveness restated as 20 CPU-seconds. Requests for legitimately '
+                  'enormous outputs (65535x65535 dummy image) are not treated as hostile.',
+             design='3/C04')
+CHECKS['C16'] = dict(technique='runtime monitoring: crash/abort/CPU/allocation monitors + Result-vs-diagnostics oracle over mutated binary inputs',
+             text='Exploration. Corpus binaries (30 bundled + compiled from generated sources for every format/game) are truncated, bit/byte/word/dword-mutated (extreme values at aligned positions), '
+                  'read cross-game, and fed to decompile (random option subsets and widths) and truanm extract in isolated workers; same monitors as C04 plus: an error must name the file, '
+                  'peak allocation <= 64 MiB + 4096 x input size.',
+             note='Mutations are generic aligned-field mutations, not guided by coverage; held only on the mutants generated. dev profile (overflow checks) in quick, dev+release in thorough.',
+             design='3/C16')
 WIP = {}  # property -> reason (not claimed)
 
 def main():
